@@ -344,3 +344,7 @@ impl<D: DictionaryAccess> DictBuilder<D> {
         }
     }
 }
+
+// verification hook: harness text lives outside the repository (see MANIFEST.hooks)
+#[cfg(any(kani, sudachi_verif))]
+include!(concat!(env!("SUDACHI_VERIF_DIR"), "/dic__build__mod.rs"));
